@@ -356,11 +356,38 @@ func vfLgTx(mode int, obC01, obC03, rp string) {
 	if mode == 2 {
 		ok := rc.Status == "SUCCESS" || rc.Status == "CREATED" || rc.Status == "RECREATED"
 		vf.Assert(ok, obC03)
+		// all effects applied: nonce, amount moved, fee charged, nobody else touched
 		vf.Assert(post.nonce[vfLgSender] == body.Nonce, obC03)
-		vf.Assert(post.same(pre, vfLgBystander), obC03)
+		vf.Assert(dReward.Cmp(feeUsed) == 0, obC03)
+		if !(typ == types.TxType_FEEDELEGATION && rcvIdx == vfLgSender) { // that shape: finding F13 of C01
+			dS := new(big.Int).Sub(pre.bal[vfLgSender], post.bal[vfLgSender]) // what the sender lost
+			want := new(big.Int)
+			if rcvIdx != vfLgSender {
+				want.Add(want, amount)
+				vf.Assert(new(big.Int).Sub(post.bal[rcvIdx], pre.bal[rcvIdx]).Cmp(vfLgRcvGain(amount, feeUsed, payer != vfLgSender)) == 0, obC03)
+			}
+			if payer == vfLgSender {
+				want.Add(want, feeUsed)
+			}
+			vf.Assert(dS.Cmp(want) == 0, obC03)
+		}
+		for i := 0; i < vfLgN; i++ {
+			if i != vfLgSender && i != rcvIdx {
+				vf.Assert(post.same(pre, i), obC03)
+			}
+		}
 	}
 	vf.Observe("outcome", rc.Status)
 	vf.Observe("fee", feeUsed)
+}
+
+// vfLgRcvGain: what the recipient gains on success: the amount, minus the fee if it pays it (fee delegation).
+func vfLgRcvGain(amount, fee *big.Int, paysFee bool) *big.Int {
+	g := new(big.Int).Set(amount)
+	if paysFee {
+		g.Sub(g, fee)
+	}
+	return g
 }
 
 func VF_C01_a() { vfLgTx(1, "C01.a", "C01.a", "C01.a") }
